@@ -14,6 +14,7 @@ struct TaskGen {
     svgs: [bool; N_RENDER_SLOTS],
     imgs: [bool; N_RENDER_SLOTS],
     svg_has_panicky: [bool; N_RENDER_SLOTS],
+    img_has_panicky: [bool; N_RENDER_SLOTS],
 }
 
 struct Swarm {
@@ -109,6 +110,7 @@ fn gen_episode_inner(verif_seed: u64, index: u64) -> Episode {
             svgs: [false; N_RENDER_SLOTS],
             imgs: [false; N_RENDER_SLOTS],
             svg_has_panicky: [false; N_RENDER_SLOTS],
+            img_has_panicky: [false; N_RENDER_SLOTS],
         };
         let mut ops: Vec<OpSpec> = Vec::new();
         while ops.len() < n_ops {
@@ -172,6 +174,7 @@ fn faulted(rng: &mut Rng, sw: &Swarm, op: Op, cb_panic_at: Option<u32>) -> OpSpe
     let is_render = op.is_render();
     let mut spec = OpSpec { op, crash_at: None, crash_site: None, cb_panic_at };
     if sw.faulty && rng.prob(sw.p_crash) {
+        // (the draws happen either way, so that both settings generate the same episodes)
         if rng.chance(1, 2) {
             spec.crash_at = crash_point(rng, is_render);
         } else {
@@ -188,8 +191,24 @@ fn faulted(rng: &mut Rng, sw: &Swarm, op: Op, cb_panic_at: Option<u32>) -> OpSpe
             };
             spec.crash_site = Some((rng.pick(sites).to_string(), nth));
         }
+        if !inject_crashes() {
+            spec.crash_at = None;
+            spec.crash_site = None;
+        }
     }
     spec
+}
+
+/// Unwinding a caller at an arbitrary `verif_point!` models nothing that can happen to this
+/// crate (safe, synchronous Rust: a caller leaves a call early only through a panic, and the
+/// places that can panic are known - the forced-mode alphabet checks, user `Shape::Command`
+/// callbacks, renderer failures on unusable option values; all of those are generated as
+/// themselves). A correct change may rely on that, e.g. by holding a lock across a stage
+/// boundary where nothing can panic, so an alarm raised through such an unwinding would be an
+/// alarm on code where the property holds. Off unless FQSIM_INJECT_CRASH is set (experiments).
+pub fn inject_crashes() -> bool {
+    static ON: std::sync::OnceLock<bool> = std::sync::OnceLock::new();
+    *ON.get_or_init(|| std::env::var_os("FQSIM_INJECT_CRASH").is_some())
 }
 
 fn crash_point(rng: &mut Rng, is_render: bool) -> Option<u32> {
@@ -243,6 +262,7 @@ fn gen_op(
         /* 21 TweakQr     */ if have_q.is_empty() { 0 } else { 2 },
         /* 22 SetBurst    */ if have_b.is_empty() && have_svg.is_empty() && have_img.is_empty() { 0 } else { 2 },
         /* 23 BlankQr     */ 2,
+        /* 24 CallbackPanic */ if sw.faulty && sw.w_svg + sw.w_img > 0 { 6 } else { 0 },
     ];
     let pick_qr = |rng: &mut Rng| -> QrRef {
         if n_shared_q > 0 && (have_q.is_empty() || rng.chance(2, 5)) {
@@ -357,6 +377,7 @@ fn gen_op(
                     _ => {
                         let slot = rng.usize_below(N_RENDER_SLOTS) as u8;
                         tg.imgs[slot as usize] = true;
+                        tg.img_has_panicky[slot as usize] = false;
                         ops.push(plain(Op::NewImg { slot }));
                         ops.push(faulted(rng, sw, Op::ImgRender { slot, qr: QrRef::Local(out), pixmap: false }, None));
                     }
@@ -391,7 +412,7 @@ fn gen_op(
         9 => {
             let slot = *rng.pick(&have_svg);
             let qr = pick_qr(rng);
-            let cb = if tg.svg_has_panicky[slot as usize] && sw.faulty && rng.chance(1, 2) {
+            let cb = if tg.svg_has_panicky[slot as usize] && sw.faulty && rng.chance(2, 3) {
                 Some(match rng.below(3) {
                     0 => rng.below(5) as u32,
                     1 => rng.below(200) as u32,
@@ -408,18 +429,45 @@ fn gen_op(
         10 => {
             let slot = rng.usize_below(N_RENDER_SLOTS) as u8;
             tg.imgs[slot as usize] = true;
+            tg.img_has_panicky[slot as usize] = false;
             ops.push(plain(Op::NewImg { slot }));
         }
         11 => {
             let slot = *rng.pick(&have_img);
-            let s = gen::gen_rsetter(rng, true, true, false);
+            // in faulty episodes: callbacks that may panic, and - the raster path's own panics -
+            // option values the renderer cannot use (a quote in a colour or an image reference
+            // makes the generated document unparsable; a fit size of 0 cannot be allocated)
+            let s = if sw.faulty && rng.chance(1, 14) {
+                match rng.below(4) {
+                    0 => RSetter::ModuleColor(ColorSpec::Str("#12\"34".to_string())),
+                    1 => RSetter::Image(ImageSpec::Raw("logo \"<draft>.png".to_string())),
+                    2 => RSetter::FitWidth(0),
+                    _ => RSetter::BackgroundColor(ColorSpec::Str("<none>".to_string())),
+                }
+            } else {
+                gen::gen_rsetter(rng, true, true, sw.faulty)
+            };
+            if let RSetter::Shape(sh) | RSetter::ShapeColor(sh, _) = &s {
+                if sh.0 % N_SHAPES == SHAPE_PANICKY {
+                    tg.img_has_panicky[slot as usize] = true;
+                }
+            }
             ops.push(plain(Op::ImgSet { slot, s }));
         }
         12 => {
             let slot = *rng.pick(&have_img);
             let qr = pick_qr(rng);
             let pixmap = rng.chance(1, 3);
-            ops.push(faulted(rng, sw, Op::ImgRender { slot, qr, pixmap }, None));
+            let cb = if tg.img_has_panicky[slot as usize] && sw.faulty && rng.chance(2, 3) {
+                Some(match rng.below(3) {
+                    0 => rng.below(5) as u32,
+                    1 => rng.below(200) as u32,
+                    _ => rng.below(1500) as u32,
+                })
+            } else {
+                None
+            };
+            ops.push(faulted(rng, sw, Op::ImgRender { slot, qr, pixmap }, cb));
         }
         13 => {
             let qr = pick_qr(rng);
@@ -451,6 +499,7 @@ fn gen_op(
                 ops.push(faulted(rng, sw, Op::RenderBurst { slot, qr, n }, None));
             }
         }
+        24 => gen_callback_panic(rng, sw, tg, inputs.len(), ops),
         23 => {
             let to = rng.usize_below(N_QR_SLOTS) as u8;
             tg.qrs[to as usize] = true;
@@ -486,6 +535,73 @@ fn gen_op(
             ops.push(plain(Op::TweakQr { from, to, pos, xor: *rng.pick(&[1u8, 1, 2, 4, 8]) }));
         }
     }
+}
+
+/// A user callback fails part-way through a render (the one way a render is left early), then
+/// the same renderer, the same thread and a freshly made renderer carry on with ordinary work.
+fn gen_callback_panic(rng: &mut Rng, sw: &Swarm, tg: &mut TaskGen, n_inputs: usize, ops: &mut Vec<OpSpec>) {
+    let is_img = sw.w_img > 0 && (sw.w_svg == 0 || rng.chance(1, 3));
+    let version = *rng.pick(&[1u8, 2, 3, 5, 5]);
+    for i in 0..2usize {
+        tg.qrs[i] = true;
+        ops.push(plain(Op::BuildFresh { input: rng.usize_below(n_inputs.max(1)) as u8, mode: None, ecl: Some(0), version: Some(version), mask: Some(rng.below(8) as u8), out: i as u8 }));
+    }
+    // one to three layers, one of them the callback that can fail
+    let mut setters: Vec<RSetter> = Vec::new();
+    let layers = rng.range(1, 3) as usize;
+    let at = rng.usize_below(layers);
+    for l in 0..layers {
+        let sh = if l == at { ShapeSpec(SHAPE_PANICKY) } else { gen::gen_shape(rng, false) };
+        setters.push(if rng.chance(1, 2) { RSetter::Shape(sh) } else { RSetter::ShapeColor(sh, gen::gen_color(rng, is_img)) });
+    }
+    if rng.chance(1, 2) {
+        setters.push(gen::gen_rsetter(rng, is_img, is_img, false));
+    }
+    let make = |slot: u8, tg: &mut TaskGen, ops: &mut Vec<OpSpec>| {
+        if is_img {
+            tg.imgs[slot as usize] = true;
+            tg.img_has_panicky[slot as usize] = true;
+            ops.push(plain(Op::NewImg { slot }));
+            for s in &setters {
+                ops.push(plain(Op::ImgSet { slot, s: s.clone() }));
+            }
+        } else {
+            tg.svgs[slot as usize] = true;
+            tg.svg_has_panicky[slot as usize] = true;
+            ops.push(plain(Op::NewSvg { slot }));
+            for s in &setters {
+                ops.push(plain(Op::SvgSet { slot, s: s.clone() }));
+            }
+        }
+    };
+    let render = |slot: u8, q: usize| -> Op {
+        if is_img {
+            Op::ImgRender { slot, qr: QrRef::Local(q as u8), pixmap: false }
+        } else {
+            Op::SvgRender { slot, qr: QrRef::Local(q as u8) }
+        }
+    };
+    // the callback is invoked once per dark module of its layer: early, in the middle, late
+    let side = 17 + 4 * version as u32;
+    let k = match rng.below(4) {
+        0 => 0,
+        1 => rng.below(6) as u32,
+        2 => rng.below((side * side / 3) as u64) as u32,
+        _ => rng.below((side * side / 2) as u64) as u32,
+    };
+    make(0, tg, ops);
+    if rng.chance(1, 2) {
+        ops.push(plain(render(0, 1))); // something ordinary first
+    }
+    ops.push(OpSpec { op: render(0, 0), crash_at: None, crash_site: None, cb_panic_at: Some(k) });
+    ops.push(plain(render(0, 1)));
+    ops.push(plain(render(0, 0)));
+    make(1, tg, ops);
+    ops.push(plain(render(1, 1)));
+    ops.push(plain(render(1, 0)));
+    // and the thread goes on building
+    ops.push(plain(Op::BuildFresh { input: rng.usize_below(n_inputs.max(1)) as u8, mode: None, ecl: None, version: None, mask: None, out: 2 }));
+    tg.qrs[2] = true;
 }
 
 fn burst_len(rng: &mut Rng) -> u32 {
@@ -547,6 +663,7 @@ fn gen_batch_render(rng: &mut Rng, sw: &Swarm, tg: &mut TaskGen, n_inputs: usize
     let make = |slot: u8, tg: &mut TaskGen, ops: &mut Vec<OpSpec>| {
         if is_img {
             tg.imgs[slot as usize] = true;
+            tg.img_has_panicky[slot as usize] = false;
             ops.push(plain(Op::NewImg { slot }));
             for s in &setters {
                 ops.push(plain(Op::ImgSet { slot, s: s.clone() }));
@@ -723,6 +840,7 @@ fn gen_render_twin(rng: &mut Rng, sw: &Swarm, tg: &mut TaskGen, is_img: bool, qr
     for (slot, list) in [(0u8, &first), (1u8, &twin)] {
         if is_img {
             tg.imgs[slot as usize] = true;
+            tg.img_has_panicky[slot as usize] = false;
             ops.push(plain(Op::NewImg { slot }));
             for s in list.iter() {
                 ops.push(plain(Op::ImgSet { slot, s: s.clone() }));
